@@ -14,6 +14,8 @@ pub struct Suite {
     pub pair: bool,
     pub allow_zero: bool,
     pub mode: Mode,
+    /// additional (kind, len-code) pairs outside the kinds x lens product
+    pub extra_units: Vec<(KindId, usize)>,
 }
 
 impl Suite {
@@ -29,6 +31,12 @@ impl Suite {
                 for i in 0..self.alphabet.len() {
                     u.push((k, l, Some(i)));
                 }
+            }
+        }
+        for &(k, l) in &self.extra_units {
+            u.push((k, l, None));
+            for i in 0..self.alphabet.len() {
+                u.push((k, l, Some(i)));
             }
         }
         u
@@ -50,7 +58,7 @@ pub fn suite(name: &str, thorough: bool) -> Suite {
     let l04: Vec<usize> = (0..=4).collect();
     let l06: Vec<usize> = (0..=6).collect();
     let lens = if thorough { l06.clone() } else { l04.clone() };
-    let mut s = Suite { name: name.to_string(), kinds: small_kinds(), lens, alphabet: alphabet(&MAIN), depth: if thorough { 6 } else { 5 }, terms: t3.clone(), pair: false, allow_zero: false, mode: Mode::Normal };
+    let mut s = Suite { name: name.to_string(), kinds: small_kinds(), lens, alphabet: alphabet(&MAIN), depth: if thorough { 6 } else { 5 }, terms: t3.clone(), pair: false, allow_zero: false, mode: Mode::Normal, extra_units: vec![] };
     match name {
         "main" | "C04" | "C17" => {
             if name == "C04" {
@@ -64,11 +72,12 @@ pub fn suite(name: &str, thorough: bool) -> Suite {
                 s.terms = vec![Term::Drop, Term::Seq(ALL), Term::Seq(1), Term::Seq(0)];
                 s.allow_zero = true;
                 s.alphabet = alphabet(&["N", "I", "C2:a", "C3:1", "C1:0", "HC2", "HN1", "HD", "BN2", "BXa", "BX1", "BD", "S", "EF2", "V", "CMx:1", "BN0", "FE0", "FO0", "C0:a"]);
+                s.extra_units = [(2usize, 1usize), (8, 8), (6, 8), (3, 5), (1, 2), (8, 6)].iter().map(|(a, b)| (KindId::RangeX, a * 16 + b)).collect();
             }
         }
         "C03" => {
             s.kinds.extend([KindId::OVecZst, KindId::OArrayZst, KindId::SliceZst]);
-            s.alphabet = alphabet(&["N", "C1:a", "C2:a", "C2:1", "C3:0", "C3:a", "CL0:a", "CL1:a", "CL1:1", "BN1", "BN2", "BN3", "BNL1", "BXa", "BX1", "BX0", "S", "HC3", "HN1", "HD"]);
+            s.alphabet = alphabet(&["N", "C1:a", "C2:a", "C2:1", "C3:0", "C3:a", "CL0:a", "CL1:a", "CL1:1", "BN1", "BN2", "BN3", "BNL1", "BXa", "BX1", "BX0", "S", "HC3", "HN1", "HD", "CV3:1", "CV2:9", "CV3:20", "CV2:21", "CV3:22", "BV1", "BV9"]);
             s.depth = if thorough { 5 } else { 4 };
             s.terms = vec![Term::Drop, Term::Seq(ALL)];
         }
@@ -79,12 +88,16 @@ pub fn suite(name: &str, thorough: bool) -> Suite {
         "C06" => {
             s.alphabet = alphabet(&["S", "N", "I", "C2:a", "C3:1", "BN2", "BXa", "BX1", "BD", "HC2", "HN1", "HD", "EF2", "H", "CMx:a", "CHp1:1"]);
         }
+        "C08" | "C15" if false => {}
         "C08" => {
+            s.alphabet = alphabet(&["N", "I", "C2:a", "C3:1", "C1:0", "HC2", "HN1", "HD", "BN2", "BXa", "BX1", "BD", "S", "EF2", "V", "CMx:1", "CV3:1", "CV2:9", "CV3:22", "BV1", "BV9", "BV21"]);
+            s.depth = if thorough { 5 } else { 4 };
             s.kinds = kinds_where(|k| k.consuming).into_iter().filter(|k| !matches!(k, KindId::OVecBox | KindId::OArrayBox | KindId::IterBox | KindId::OVec24 | KindId::OArray24 | KindId::Iter24)).collect();
             s.kinds.extend([KindId::OVecZst, KindId::OArrayZst]);
             s.terms = vec![Term::Drop, Term::Seq(ALL), Term::Seq(1), Term::Seq(0)];
         }
         "C15" => {
+            s.alphabet = alphabet(&["N", "I", "C2:a", "C3:1", "C1:0", "HC2", "HN1", "HD", "BN2", "BXa", "BX1", "BD", "S", "EF2", "V", "CMx:1", "CV3:1", "CV2:9", "CV3:20", "CV3:22", "BV1", "BV9"]);
             s.kinds = kinds_where(|k| k.consuming);
             s.terms = vec![Term::Drop, Term::Seq(ALL), Term::Seq(1), Term::Seq(0)];
             s.depth = if thorough { 6 } else { 4 };
